@@ -347,6 +347,7 @@ type GovExec struct {
 type GroupModel struct {
 	N     uint64
 	Admin map[uint64]string
+	Left  map[uint64]bool // groups a member has left (the generator's groups have one member)
 }
 
 type Models struct {
@@ -426,6 +427,16 @@ func NewModels(w *World) *Models {
 func (m *Models) Clone() *Models {
 	c := *m
 	c.Ent, c.Wrk, c.Bcn, c.Str = m.Ent.clone(), m.Wrk.clone(), m.Bcn.clone(), m.Str.clone()
+	if m.Grp != nil {
+		g := &GroupModel{N: m.Grp.N, Admin: map[uint64]string{}, Left: map[uint64]bool{}}
+		for k, v := range m.Grp.Admin {
+			g.Admin[k] = v
+		}
+		for k, v := range m.Grp.Left {
+			g.Left[k] = v
+		}
+		c.Grp = g
+	}
 	c.ParamChanged = map[string]int{}
 	for k, v := range m.ParamChanged {
 		c.ParamChanged[k] = v
@@ -855,6 +866,12 @@ func (m *Models) afterTx(w *World, tx *TxCtx) {
 				w.Ev("GROUP-POLICY-ADDRESS-MISMATCH %d %s", m.Grp.N, got)
 				w.Probe("harness.group-policy-address-mismatch")
 			}
+			continue
+		case *group.MsgLeaveGroup:
+			if m.Grp.Left == nil {
+				m.Grp.Left = map[uint64]bool{}
+			}
+			m.Grp.Left[gm.GroupId] = true
 			continue
 		case *group.MsgSubmitProposal:
 			// executed inside this transaction only if the proposal passed and all its messages
